@@ -83,6 +83,15 @@ class _Dom(Domain):
             return False
         return fold_truth(n)
 
+    def on_event(self, st, ev):
+        if ev.kind == 'local' and ev.sym is not None and ev.sym.tag == \
+                'fresh' and isinstance(ev.sym.info, dict) \
+                and 'call' in ev.sym.info \
+                and '_dead_entities' in ev.sym.info['call'].text:
+            # e.g. entity = next(iter(self._dead_entities)): drawn, not removed
+            st.data.setdefault('peeked', set()).add(ev.sym.text)
+        return super().on_event(st, ev)
+
 
 def _row_delete_key(e):
     """Entity text if the event deletes a whole row of _entities."""
@@ -190,11 +199,29 @@ def run(program, rep, tier):
               line=f.node.lineno)
 
     # ---- visible -------------------------------------------------------------
+    # World methods that (transitively, through self.<m> calls and
+    # properties) read the pending set
+    readers = set()
+    changed = True
+    while changed:
+        changed = False
+        for m in world.methods.values():
+            base = m.name.split('.')[0]
+            if base in readers:
+                continue
+            hit = any(isinstance(n, ast.Attribute) and isinstance(
+                n.value, ast.Name) and n.value.id == 'self' and (
+                    n.attr == '_dead_entities' or n.attr in readers)
+                for n in ast.walk(m.node))
+            if hit:
+                readers.add(base)
+                changed = True
     for name in ('get', '_get', 'get_component', 'get_components',
                  'has_component'):
         g = program.method('World', name)
         reads = [n for n in ast.walk(g.node) if isinstance(n, ast.Attribute)
-                 and n.attr == '_dead_entities']
+                 and isinstance(n.value, ast.Name) and n.value.id == 'self'
+                 and (n.attr == '_dead_entities' or n.attr in readers)]
         rep.check(not reads, 'C05.visible', site(g), g.node.name,
                   'component queries ignore the pending set (components stay '
                   'queryable until process)',
@@ -205,6 +232,7 @@ def run(program, rep, tier):
     # ---- subset: maintain arm at every row-delete site ----------------------
     n_sites = 0
     unmaintained = []
+    early = {}
     for c in [world] + program.subclasses(world):
         for m in c.methods.values():
             if m.kind != 'method':
@@ -234,6 +262,18 @@ def run(program, rep, tier):
                     d = per_site.setdefault((norm(e.node), e.node.lineno),
                                             {'ok': 0, 'bad': 0})
                     d['ok' if ok else 'bad'] += 1
+            for ex in exits:
+                if ex.kind == 'raise':
+                    continue
+                tr = ex.state.trace
+                for i, e in enumerate(tr):
+                    op = _dead_op(e)
+                    if not op or op[0] != 'discard':
+                        continue
+                    gone = any(_row_delete_key(x) == op[1] for x in tr[:i])
+                    d = early.setdefault((norm(e.node), e.node.lineno, m),
+                                         {'ok': 0, 'bad': 0})
+                    d['ok' if gone else 'bad'] += 1
             for (text, line), d in per_site.items():
                 n_sites += 1
                 if d['bad']:
@@ -244,6 +284,15 @@ def run(program, rep, tier):
                            'by the discard of that id from the pending set',
                            line=line)
     rep.floor('C05.subset', 'row-delete sites of _entities', n_sites, 2)
+    for (text, line, m), d in early.items():
+        rep.check(d['bad'] == 0, 'C05.mark', site(m), text,
+                  'a pending mark is only discarded once the row of the '
+                  'entity is gone',
+                  'the pending mark of an entity is discarded on a path on '
+                  'which its row still exists: removing (or replacing) one '
+                  'component of an entity awaiting deletion silently cancels '
+                  'the deletion - it exists again and process() never '
+                  'deletes it', detail=d, line=line)
 
     # ---- the applier: how ids are drawn, guards, progress --------------------
     app = program.method('World', applier_name)
@@ -296,8 +345,10 @@ def run(program, rep, tier):
                             sub.value) == E:
                         ent = norm(sub.slice)
                         n_rows += 1
+                        peeked = {x.sym.text for x in tr if x.kind == 'fresh'
+                                  and '_dead_entities' in x.extra.text}
                         from_dead = (ent == f'{DEAD}.pop()' or DEAD.split(
-                            '.')[1] in ent)
+                            '.')[1] in ent or ent in peeked)
                         if not from_dead:
                             continue
                         if ent not in current:
